@@ -8,7 +8,7 @@ from ref import asn1ast as A, ber, uper, oer
 
 
 def make_worker(tier):
-    depth = 3 if tier == 'quick' else 4
+    depth = 3 if tier == 'quick' else 5
     faults = 1
 
     def worker(b):
@@ -93,6 +93,6 @@ def run(args):
                     'with the k-th allocation failing for EVERY k the operation reaches, followed by FREE, and by RESET + full decode (must equal the reference state). '
                     'Oracle: ledger empty and no unknown/double free after FREE; RESET leaves exactly one all-zero block; decode after RESET reaches the same canonical '
                     'state as a fresh decode; RC_OK despite a failed allocation must still carry the right value. non-trivial = encodings where injected failures fired' % (
-                        ','.join(fams), 3 if args.tier == 'quick' else 4),
+                        ','.join(fams), 3 if args.tier == 'quick' else 5),
                samples=samples, stats=dict(stats), trusted_base=['allocation ledger + fault injector (drv/ledger.c, --wrap)', 'canonical heap image', 'ASan/UBSan'])
     return chk.finish(cov, exhaustive=(stats['state_cap_hit'] == 0))
